@@ -1,5 +1,7 @@
 #!/usr/bin/env python3
-"""bin/seeded_eval.py <worktree> <seeded-name> <property-id> [--checks C01,C02,...]
+"""bin/seeded_eval.py <worktree> <seeded-name> <property-id> [--checks=C01,C02,...] [--tree]
+(--tree: run the checks against the worktree itself through bin/eval_tree, so that /repo is not touched and several
+evaluations can run side by side)
 Confirms a seeded change produced by a sub-agent (tests still pass with it; its demo fails with it and passes without it),
 stores it under /verif/seeded/<name>/ and runs the quick checks against it (applied to /repo, then reverted)."""
 import json
@@ -10,9 +12,12 @@ import sys
 
 wt, name, pid = sys.argv[1], sys.argv[2], sys.argv[3]
 checks = [f"C{i:02d}" for i in range(1, 21)]
+use_tree = False
 for a in sys.argv[4:]:
     if a.startswith("--checks"):
         checks = a.split("=")[1].split(",")
+    if a == "--tree":
+        use_tree = True
 env = dict(os.environ, PYTHONPATH=f"{wt}/src")
 mut = f"{wt}/MUTATION"
 out = f"/verif/seeded/{name}"
@@ -39,7 +44,13 @@ for f in ("demo.py", "notes.md"):
         shutil.copy(f"{mut}/{f}", f"{out}/{f}")
 results = {}
 if confirmed:
-    r = sh(f"/verif/bin/try_patch {out}/patch.diff {' '.join(checks)}")
+    if use_tree:
+        import tempfile
+        evd = tempfile.mkdtemp(prefix="eval_")
+        r = sh(f"/verif/bin/eval_tree {wt} {evd} {' '.join(checks)}")
+        shutil.rmtree(evd, ignore_errors=True)
+    else:
+        r = sh(f"/verif/bin/try_patch {out}/patch.diff {' '.join(checks)}")
     print(r.stdout)
     for line in r.stdout.splitlines():
         if line.startswith("C") and " rc=" in line:
@@ -52,7 +63,8 @@ meta = dict(property=pid, name=name, confirmed=confirmed,
             demo_without_change=dict(rc=d0.returncode, tail=(d0.stdout + d0.stderr)[-200:]),
             ran=[f"cd <worktree> && PYTHONPATH=<worktree>/src /venv/bin/python -m pytest -q -p no:cacheprovider --continue-on-collection-errors",
                  "PYTHONPATH=<worktree>/src /venv/bin/python demo.py   (with the change: must fail; without: must pass)",
-                 "/verif/bin/try_patch patch.diff   (git -C /repo apply; bin/check <all ids> --tier quick; git -C /repo checkout -- .)"],
+                 ("/verif/bin/eval_tree <worktree> <tmpdir>   (all quick checks with BASICTDF_REPO=<worktree>, /repo untouched)" if use_tree else
+                  "/verif/bin/try_patch patch.diff   (git -C /repo apply; bin/check <all ids> --tier quick; git -C /repo checkout -- .)")],
             needs=open(f"{out}/notes.md").read()[:1500] if os.path.exists(f"{out}/notes.md") else "",
             checks=results,
             caught_by=[c for c, v in results.items() if v["violation"]],
